@@ -115,8 +115,18 @@ func c14Direct(r *Run, h int) {
 	tc.AddEventHandler(h2.handler())
 	stop := make(chan struct{})
 	done := make(chan struct{})
-	go func() { tc.Run(stop); close(done) }()
+	go func(s, d chan struct{}) { tc.Run(s); close(d) }(stop, done)
 	defer func() { close(stop); <-done }()
+	// the dispatcher is stopped and started again as it is around every reconnect of a client: the events
+	// still queued belong to changes the cache has applied and are delivered by the next dispatcher
+	restarts := 0
+	restart := func() {
+		close(stop)
+		<-done
+		stop, done = make(chan struct{}), make(chan struct{})
+		go func(s, d chan struct{}) { tc.Run(s); close(d) }(stop, done)
+		restarts++
+	}
 	co := cacheOnly{tc}
 	type stepJ struct {
 		Kind string `json:"kind"`
@@ -194,6 +204,11 @@ func c14Direct(r *Run, h int) {
 			applied++
 		}
 		steps = append(steps, st)
+		if r.Rng.Intn(8) == 0 {
+			restart()
+			steps = append(steps, stepJ{Kind: "dispatcher-restart"})
+			r.Count("direct:dispatcher-restart")
+		}
 		cs["steps"] = steps
 		r.Count("direct:" + st.Kind)
 		if perr != nil {
